@@ -11,7 +11,7 @@
 //! LOOM_CHECKPOINT_FILE set the failing schedule is left on disk and a re-run
 //! with the same file replays exactly that schedule.
 
-use futures_intrusive::buffer::FixedHeapBuf;
+use futures_intrusive::buffer::{FixedHeapBuf, RingBuf};
 use futures_intrusive::channel::shared as sh;
 use futures_intrusive::channel::{GenericOneshotBroadcastChannel, GenericOneshotChannel, GenericStateBroadcastChannel, StateId};
 use futures_intrusive::sync::{GenericManualResetEvent, GenericMutex, GenericSemaphore, GenericSharedSemaphore};
@@ -239,7 +239,13 @@ impl std::fmt::Debug for Tracked {
 
 struct HClock(AtomicU64);
 impl Clock for HClock {
+    /// The timer reads the clock INSIDE its critical section: the read is a scheduling point (an
+    /// operation on the shared tick object), so that another thread can be scheduled while the
+    /// reading thread holds the timer lock, between the clock read and whatever it does with it.
     fn now(&self) -> u64 {
+        unarmed(|| {
+            wtick().fetch_add(1, Ordering::Relaxed);
+        });
         self.0.load(Ordering::SeqCst)
     }
 }
@@ -899,6 +905,173 @@ fn event_set_vs_complete() {
     assert!(f2.as_mut().poll(&mut Context::from_waker(&w2)).is_ready());
     drop(f2);
     epilogue_event(&e);
+}
+
+// ------------------------------------------------ the buffer is only touched under the channel lock
+/// A legal user `RingBuf` that is `Send` but not `Sync`: every `&self` method reads, every
+/// `&mut self` method writes a `loom::cell`. The channel is `Sync` for such a buffer because it only
+/// calls them inside its critical section; a peek at the buffer without the lock is a loom causality
+/// violation here (C16, semantic side).
+struct ProbeBuf {
+    probe: loom::cell::UnsafeCell<u32>,
+    items: std::collections::VecDeque<u32>,
+    cap: usize,
+}
+unsafe impl Send for ProbeBuf {}
+impl RingBuf for ProbeBuf {
+    type Item = u32;
+    fn new() -> Self {
+        Self::with_capacity(2)
+    }
+    fn with_capacity(cap: usize) -> Self {
+        ProbeBuf { probe: loom::cell::UnsafeCell::new(0), items: std::collections::VecDeque::with_capacity(cap), cap }
+    }
+    fn capacity(&self) -> usize {
+        self.probe.with(|_| ());
+        self.cap
+    }
+    fn len(&self) -> usize {
+        self.probe.with(|_| ());
+        self.items.len()
+    }
+    fn can_push(&self) -> bool {
+        self.probe.with(|_| ());
+        self.items.len() < self.cap
+    }
+    fn push(&mut self, item: u32) {
+        self.probe.with_mut(|p| unsafe { *p += 1 });
+        self.items.push_back(item)
+    }
+    fn pop(&mut self) -> u32 {
+        self.probe.with_mut(|p| unsafe { *p += 1 });
+        self.items.pop_front().expect("pop on empty ProbeBuf")
+    }
+}
+
+fn mpmc_buffer_exclusive() {
+    let (tx, rx) = sh::generic_channel::<LoomRaw, u32, ProbeBuf>(2);
+    let _ = rx.try_receive();
+    let h1 = spawn(move || {
+        let _ = tx.try_send(1);
+        let _ = tx.try_send(2);
+    });
+    let rx2 = rx.clone();
+    let h2 = spawn(move || {
+        let a = rx2.try_receive().ok();
+        let b = rx2.try_receive().ok();
+        (a, b)
+    });
+    let c = rx.try_receive().ok();
+    h1.join().unwrap();
+    let (a, b) = h2.join().unwrap();
+    let mut got: Vec<u32> = [a, b, c].iter().flatten().copied().collect();
+    while let Ok(v) = rx.try_receive() {
+        got.push(v);
+    }
+    got.sort();
+    assert_eq!(got, vec![1, 2], "C08: every accepted value is received exactly once");
+}
+
+/// The first poll of a timer future (clock still below the deadline when it is read, inside the
+/// timer lock) races with a thread that advances the clock to the deadline and calls
+/// check_expirations(): either the poll already sees the new clock value and completes, or the
+/// check sees the registered future and wakes it.
+fn timer_check_vs_first_poll() {
+    CLK.0.store(5, Ordering::SeqCst);
+    let t = Arc::new(GenericTimerService::<LoomRaw>::new(&CLK));
+    let _ = t.next_expiration();
+    let tr: &'static GenericTimerService<LoomRaw> = unsafe { &*(&*t as *const GenericTimerService<LoomRaw>) };
+    let mut f = Box::pin(Timer::deadline(tr, 10));
+    let (w, c) = counting_waker();
+    let t1 = t.clone();
+    let h = spawn(move || {
+        CLK.0.store(10, Ordering::SeqCst);
+        t1.check_expirations();
+    });
+    let ready = f.as_mut().poll(&mut Context::from_waker(&w)).is_ready();
+    h.join().unwrap();
+    if !ready {
+        assert!(c.load(Ordering::SeqCst) > 0, "C15: a check_expirations() that ran with clock >= deadline missed the registered, due timer");
+        assert!(f.as_mut().poll(&mut Context::from_waker(&w)).is_ready(), "C15: due timer future does not complete");
+    }
+    drop(f);
+    epilogue_timer(&t, 10);
+}
+
+/// Two sender clones publish concurrently; each thread remembers what it could read right after
+/// its own send. Afterwards the channel must behave like one that has seen two publications:
+/// from an older id one gets the latest state, from the latest id nothing.
+fn state_two_senders() {
+    let (tx, rx) = sh::generic_state_broadcast_channel::<LoomRaw, u32>();
+    let _ = rx.try_receive(StateId::new());
+    let hs: Vec<_> = [100u32, 200]
+        .iter()
+        .map(|&v| {
+            let tx = tx.clone();
+            let rx = rx.clone();
+            spawn(move || {
+                assert!(tx.send(v).is_ok(), "C13: send on an open channel failed");
+                rx.try_receive(StateId::new()).expect("C13: try_receive(StateId::new()) returned None after a send had completed")
+            })
+        })
+        .collect();
+    let seen: Vec<(StateId, u32)> = hs.into_iter().map(|h| h.join().unwrap()).collect();
+    let (latest_id, latest_v) = rx.try_receive(StateId::new()).expect("C13: nothing published after two sends");
+    assert!(rx.try_receive(latest_id).is_none(), "C13: try_receive(latest id) yields a state");
+    for (id, v) in seen {
+        assert!(id <= latest_id, "C13: an id observed earlier is larger than the latest one");
+        if id < latest_id {
+            match rx.try_receive(id) {
+                Some((nid, nv)) => assert!(nid == latest_id && nv == latest_v, "C13: try_receive(older id) did not yield the latest state"),
+                None => panic!("C13: try_receive returned None for id {:?} although state {:?} (value {}) is published", id, latest_id, latest_v),
+            }
+        } else {
+            assert_eq!(v, latest_v, "C13: two different values under the same id");
+        }
+    }
+    epilogue_state_shared(&tx, &rx, 300);
+}
+
+fn epilogue_state_shared(tx: &sh::GenericStateSender<LoomRaw, u32>, rx: &sh::GenericStateReceiver<LoomRaw, u32>, v: u32) {
+    let id = rx.try_receive(StateId::new()).map(|x| x.0).unwrap_or_else(StateId::new);
+    let mut f = Box::pin(rx.receive(id));
+    let (w, cnt) = counting_waker();
+    assert!(f.as_mut().poll(&mut Context::from_waker(&w)).is_pending(), "C13: receive completed although nothing newer was published");
+    tx.send(v).expect("C13: send on an open channel failed");
+    assert!(cnt.load(Ordering::SeqCst) > 0, "C13: send() did not wake the pending receiver");
+    match f.as_mut().poll(&mut Context::from_waker(&w)) {
+        Poll::Ready(Some((nid, x))) => {
+            assert!(nid > id, "C13: id not increasing");
+            assert_eq!(x, v, "C13: receiver did not get the latest state");
+        }
+        _ => panic!("C13: pending receiver did not get the published state"),
+    }
+}
+
+/// Two threads call send() through the SAME shared oneshot sender handle. Exactly one send is
+/// accepted; a thread whose send was rejected then starts a receive, which must find the channel
+/// fulfilled (a rejection means that a send or close has taken effect before).
+fn oneshot_two_sends_by_ref() {
+    let (tx, rx) = sh::generic_oneshot_channel::<LoomRaw, u32>();
+    let tx = std::sync::Arc::new(tx);
+    let rx = std::sync::Arc::new(rx);
+    let hs: Vec<_> = [1u32, 2]
+        .iter()
+        .map(|&v| {
+            let tx = tx.clone();
+            let rx = rx.clone();
+            spawn(move || match tx.send(v) {
+                Ok(()) => true,
+                Err(_) => {
+                    let r = poll_once_and_drop(rx.receive());
+                    assert!(matches!(r, Some(Some(_))), "C12: a send was rejected although no send or close had taken effect (a receive started afterwards is {:?})", r);
+                    false
+                }
+            })
+        })
+        .collect();
+    let oks: Vec<bool> = hs.into_iter().map(|h| h.join().unwrap()).collect();
+    assert_eq!(oks.iter().filter(|b| **b).count(), 1, "C12: exactly one send on an open oneshot channel is accepted");
 }
 
 // ------------------------------------------------ many parked waiters under threads
@@ -2383,6 +2556,10 @@ const SCENARIOS: &[(&str, &str, Scenario)] = &[
     ("alloc_race_timer", "C15,C18", alloc_race_timer),
     ("alloc_race_event", "C14,C18", alloc_race_event),
     ("alloc_race_sem", "C06,C18", alloc_race_sem),
+    ("mpmc_buffer_exclusive", "C08,C16", mpmc_buffer_exclusive),
+    ("timer_check_vs_first_poll", "wk:C15", timer_check_vs_first_poll),
+    ("state_two_senders", "hook:C13", state_two_senders),
+    ("oneshot_two_sends_by_ref", "C12", oneshot_two_sends_by_ref),
     ("mutex_debug_vs_guard", "C02,C16", mutex_debug_vs_guard),
     ("event_many_set_vs_reset", "C01,C14", event_many_set_vs_reset),
     ("timer_many_vs_abandon", "C01,C15", timer_many_vs_abandon),
